@@ -1079,4 +1079,28 @@ MUTANTS += [
       edits=[(US+"swarm.rs", "        let mut total_num_peers = 0;", "        let mut peer_total = 0;"),
              (US+"swarm.rs", "                total_num_peers += num_peers;", "                peer_total += num_peers;"),
              (US+"swarm.rs", "        (total_num_torrents, total_num_peers, opt_histogram)", "        (total_num_torrents, peer_total, opt_histogram)")]),
+ dict(id="C14-compact-peer-address-little-endian", props=["C14"], expect={"C14": r"."},
+      edits=[(HP+"response.rs", "bytes_written += output.write(&u32::from(peer.ip_address).to_be_bytes())?;", "bytes_written += output.write(&u32::from(peer.ip_address).to_le_bytes())?;")]),
+ dict(id="C14-compact-peer-port-native-endian", props=["C14"], expect={"C14": r"."},
+      edits=[(HP+"response.rs", """            bytes_written += output.write(&u128::from(peer.ip_address).to_be_bytes())?;
+            bytes_written += output.write(&peer.port.to_be_bytes())?;""", """            bytes_written += output.write(&u128::from(peer.ip_address).to_be_bytes())?;
+            bytes_written += output.write(&peer.port.to_ne_bytes())?;""")]),
+ dict(id="C13-ipv6-image-through-native-endian-integer", props=["C13", "C03"], expect={"C13": r"address#v6#(to|from)_wire", "C03": r"wire_image#address#v6"},
+      edits=[(UP+"common.rs", "        Ipv6Addr::from(val.0)", "        Ipv6Addr::from(u128::from_ne_bytes(val.0))"),
+             (UP+"common.rs", "        Ipv6AddrBytes(val.octets())", "        Ipv6AddrBytes(u128::from(val).to_ne_bytes())")]),
+ dict(id="C16-swarm-worker-keeps-refmut-across-await", props=["C16", "C12"], expect={"C16": r"await#http#no_refcell_guard_held", "C12": r"guard#refcell#not_held_across_await"},
+      edits=[("crates/http/src/workers/swarm/mod.rs", """                let response = torrents
+                    .borrow_mut()
+                    .handle_scrape_request(&config, peer_addr, request);
+""", """                let mut torrent_maps = torrents.borrow_mut();
+                let response = torrent_maps.handle_scrape_request(&config, peer_addr, request);
+""")]),
+ dict(id="BENIGN-C16-refmut-dropped-before-await", props=["C16", "C12", "C07"], benign=True,
+      edits=[("crates/http/src/workers/swarm/mod.rs", """                let response = torrents
+                    .borrow_mut()
+                    .handle_scrape_request(&config, peer_addr, request);
+""", """                let mut torrent_maps = torrents.borrow_mut();
+                let response = torrent_maps.handle_scrape_request(&config, peer_addr, request);
+                drop(torrent_maps);
+""")]),
 ]
